@@ -117,6 +117,8 @@ def run(ctx: RuleContext, p: Program) -> None:
     ctx.try_rule(rule_disambig, p, 'DISAMBIG')
     from . import grammar_rules
     ctx.try_rule(grammar_rules.rule_gram_fields, p, tcs, 'GRAM-FIELDS')
+    from . import bcline
+    ctx.try_rule(bcline.rule_bc_line, p, 'BC-LINE')
     ctx.not_decided += ['that the printed text of a constructed model parses (runtime / lexer)',
                         'that the parsed result has equal fields and values (runtime)']
     ctx.assumptions += ['detach()/reattach() semantics as decided under C05', 'separator tokens are deep-copied (SEP-PROV under C03/C11)']
